@@ -71,6 +71,8 @@ Node World::obs() {
 }
 
 std::string World::open_path() {
+    if (path_shape == 1 && path.compare(0, dir.size() + 1, dir + "/") == 0) { cnt.inc("open.relative_path"); return path.substr(dir.size() + 1); }       // relative to the working directory
+    if (path_shape == 2 && path.compare(0, dir.size() + 1, dir + "/") == 0) { cnt.inc("open.redundant_separators"); return dir + "//./" + path.substr(dir.size() + 1); }
     if (!via_symlink) return path;
     std::string l = dir + "/link to file.nix";
     syscall(SYS_unlink, l.c_str());
@@ -560,6 +562,8 @@ void World::run(const Plan &p, const std::string &d) {
     pid_set(4000 + (int) ((s.entropy >> 9) % 3));
     threaded_run = ((s.entropy >> 20) % 5) == 0 && !getenv("NIXSIM_NO_THREADS");
     via_symlink = ((s.entropy >> 28) % 5) == 0;
+    path_shape = via_symlink ? 0 : (int) ((s.entropy >> 36) % 8);      // 1: relative path, 2: redundant separators, else the plain absolute name
+    if (path_shape == 1 && syscall(SYS_chdir, dir.c_str()) != 0) path_shape = 0;
     twin_safe = plan_is_twin(plan);
     blind = twin_safe && g_blind_twin;
     h5knob_set(s.cache_mode, s.sieve_mode);
